@@ -33,14 +33,24 @@ func c08(p Params) func() {
 	yields := p.Int("yields", 1)
 	proto := p.Get("proto", "raw")
 	idle := p.Int("idle", 0)
+	nested := p.Get("nested", "") // the handler on A itself calls ("call") or pushes to ("push") B before it returns
 	return func() {
 		begin()
 		a := world.NewPeer("json")
 		b := world.NewPeer("json")
+		var nestedCmd erpc.CallCmd
+		var nestedRes, hBName, hPBName string
+		pushesAtB := 0
 		hA := a.RouteCallFunc(func(ctx erpc.CallCtx, arg *string) (*string, *erpc.Status) {
 			world.Event("hA_enter")
 			for i := 0; i < yields; i++ {
 				vsched.Yield()
+			}
+			switch nested {
+			case "call":
+				nestedCmd = ctx.Session().Call(hBName, "n", &nestedRes)
+			case "push":
+				ctx.Session().Push(hPBName, "p")
 			}
 			r := "A:" + *arg
 			world.Event("hA_exit")
@@ -49,6 +59,11 @@ func c08(p Params) func() {
 		hB := b.RouteCallFunc(func(ctx erpc.CallCtx, arg *string) (*string, *erpc.Status) {
 			r := "B:" + *arg
 			return &r, nil
+		})
+		hBName = hB
+		hPBName = b.RoutePushFunc(func(ctx erpc.PushCtx, arg *string) *erpc.Status {
+			pushesAtB++
+			return nil
 		})
 		sa, sb, link := world.Connect(a, b, world.Proto(proto))
 		// further idle sessions of the closing peer (Peer.Close closes all of them concurrently)
@@ -149,6 +164,11 @@ func c08(p Params) func() {
 		}
 		checkOut(outCmd, outRes, "y")
 		checkOut(out2Cmd, out2Res, "z")
+		// a call the running handler itself issued: if its request reached the wire, B's reply must come back
+		checkOut(nestedCmd, nestedRes, "n")
+		if pushesAtB > 1 {
+			vsched.Failf("the handler's push was delivered %d times", pushesAtB)
+		}
 		if sa.Health() {
 			vsched.Failf("session still healthy after Close() returned")
 		}
